@@ -158,6 +158,16 @@ theorem expansion_is_regenerated_body (params : List Rune) :
       Bool.false_eq_true, if_false, List.nil_append, List.cons_append]
     rw [← key _ _ (by simp [Gen.ParserActs.csiDispatchBody]; exact ⟨rfl, rfl⟩)]
 
+/-- The "never blocks" half of `driven_params_run_is_pool_run` is about the order of `Get`s and
+    `append`s: the operations of a `csiDispatch` without the `paramPool.Get()` of the `case ';'` clause
+    (`noGetBody`), on `1;2`, are **not** a run of the pool model — after `csi.Parameters =
+    append(csi.Parameters, param)` the array belongs to the sequence and `append(param, 2)` has no
+    array of its own to write to — while the operations of the regenerated body are. -/
+theorem driven_params_needs_get_per_param :
+    (driveOps [] (bodyOps [0x31, 0x3B, 0x32] noGetBody {}) [] {}).isNone = true ∧
+    (driveOps [] (bodyOps [0x31, 0x3B, 0x32] Gen.ParserActs.csiDispatchBody {}) [] {}).isSome = true := by
+  decide +kernel
+
 /-- The cell encoding loses nothing. -/
 theorem cell_encoding_injective (v w : Int) (h : enc v = enc w) : v = w := enc_injective v w h
 
